@@ -188,7 +188,7 @@ fn pb_key_roundtrip() {
 #[kani::proof]
 #[kani::unwind(8)]
 #[kani::stub(alloc::fmt::format, stub_format)]
-fn bnd_pb_int32_repeated_packed() {
+fn bnd_pb_i32_repeated_packed() {
     let old: i32 = kani::any();
     let a: u8 = kani::any();
     let b: u8 = kani::any();
